@@ -87,8 +87,13 @@ def check_decode(run, T, name, nominal, data):
             # canonical encoding within the nominal width must decode
             run.violation('decode/%s/raised-on-valid' % name,
                           'raised on a canonical in-width encoding', w)
-        if t is not None and t + 1 <= nominal:
-            run.count('decode.raised_on_noncanonical_in_width')
+        elif t is not None and t + 1 <= nominal:
+            # the statement allows raising only at end of stream or on an
+            # over-long encoding: a terminated encoding within the nominal
+            # width - also a zero-padded one, as fixed-width writers emit -
+            # is neither
+            run.violation('decode/%s/raised-on-padded' % name, 'raised on a '
+                          'terminated, in-width (non-minimal) encoding', w)
 
 
 def stream_kinds(run, types, thorough):
